@@ -186,9 +186,15 @@ def observe(v):
     if isinstance(v, fieldtypes.digest):
         return ["digest", v.md5, v.sha1, v.sha256]
     if isinstance(v, _net.ipaddress):
-        return ["ip", cls, v.val.version, str(int(v.val))]
+        val = getattr(v, "val", None)
+        if not isinstance(val, (_ip.IPv4Address, _ip.IPv6Address)):
+            return ["ip", cls, None, "no-address:" + repr(val)[:60]]      # an address object that holds no address
+        return ["ip", cls, val.version, str(int(val))]
     if isinstance(v, _net.ipnetwork):
-        return ["ipnet", cls, v.val.version, str(v.val)]
+        val = getattr(v, "val", None)
+        if not isinstance(val, (_ip.IPv4Network, _ip.IPv6Network)):
+            return ["ipnet", cls, None, "no-network:" + repr(val)[:60]]
+        return ["ipnet", cls, val.version, str(val)]
     if isinstance(v, (_ip.IPv4Address, _ip.IPv6Address)):
         return ["pyip", v.version, str(int(v))]
     if type(v).__module__.endswith("net.ipv4"):
